@@ -525,3 +525,371 @@ example :
     (step s (.install 2 ⟨⟨1, 2, 1⟩, 2, false⟩ [.all, .all, .all] [.D, .D, .X])).2 = .installed ⟨1, 2, 1⟩ 2 2 := by decide
 
 end WK.C01
+
+/-! ## a receipt means q distinct holders -/
+namespace WK.C01
+open WK WK.Repl
+
+/-- voter store holds the proposal with exactly this manifest -/
+def HoldsM (st : Store) (m : Manifest) : Prop := ∃ pr ∈ st.props, pr.m = m
+
+theorem holdsM_mono {a b : Store} (h : AppendOnly a b) {m : Manifest} (hm : HoldsM a m) : HoldsM b m := by
+  obtain ⟨pr, hp, he⟩ := hm; exact ⟨pr, h pr hp, he⟩
+
+/-- the voters whose completion was durable, in consumption order -/
+def durableVoters : List Nat → List (Bool × Comp) → List Nat
+  | v :: vs, (_, c) :: cs => (if c = .durable then [v] else []) ++ durableVoters vs cs
+  | _, _ => []
+
+theorem durableVoters_length : ∀ (vs : List Nat) (cs : List (Bool × Comp)), vs.length = cs.length →
+    (durableVoters vs cs).length = durableVotes cs := by
+  intro vs
+  induction vs with
+  | nil => intro cs h; cases cs with
+    | nil => rfl
+    | cons _ _ => simp at h
+  | cons v vs ih =>
+    intro cs h
+    cases cs with
+    | nil => simp at h
+    | cons c cs =>
+      obtain ⟨l, c⟩ := c
+      simp only [List.length_cons, Nat.add_right_cancel_iff] at h
+      have := ih cs h
+      cases c <;> simp [durableVoters, durableVotes, List.filter_cons] at this ⊢ <;> omega
+
+theorem durableVoters_sublist : ∀ (vs : List Nat) (cs : List (Bool × Comp)), (durableVoters vs cs).Sublist vs := by
+  intro vs
+  induction vs with
+  | nil => intro cs; simp [durableVoters]
+  | cons v vs ih =>
+    intro cs
+    cases cs with
+    | nil => simp [durableVoters]
+    | cons c cs =>
+      obtain ⟨l, c⟩ := c
+      simp only [durableVoters]
+      split
+      · exact List.Sublist.cons₂ _ (ih cs)
+      · exact List.Sublist.cons _ (ih cs)
+
+/-- after all votes, every voter whose completion was durable holds the proposal -/
+theorem applyVotes_holders (ln : Nat) (acks : List Ack) (p : Proposal) : ∀ (vs : List Nat) (s : Sys),
+    (∀ v ∈ vs, (s.node? v).isSome) →
+    ((applyVotes s ln acks p vs).2.length = vs.length) ∧
+    ∀ v ∈ durableVoters vs (applyVotes s ln acks p vs).2, HoldsM ((applyVotes s ln acks p vs).1.storeOf v) p.m := by
+  intro vs
+  induction vs with
+  | nil => intro s _; exact ⟨rfl, fun v hv => by simp [durableVoters, applyVotes] at hv⟩
+  | cons v vs ih =>
+    intro s hex
+    simp only [applyVotes]
+    have hvo := voteOn_durable_mem (s.storeOf v) (ackOf s acks v) (v == ln) p
+    generalize voteOn (s.storeOf v) (ackOf s acks v) (v == ln) p = vo at hvo ⊢
+    obtain ⟨st1, c1⟩ := vo
+    have hex' : ∀ w ∈ vs, ((s.setStore v st1).node? w).isSome := by
+      intro w hw
+      rw [(SameOwners.setStore s v st1).node_isSome]; exact hex w (List.mem_cons_of_mem _ hw)
+    have ih' := ih (s.setStore v st1) hex'
+    have fr := applyVotes_frameS appendOnly_relS (s.setStore v st1) ln acks p vs
+    generalize applyVotes (s.setStore v st1) ln acks p vs = ar at ih' fr ⊢
+    obtain ⟨s', cs⟩ := ar
+    simp only at ih' fr hvo ⊢
+    refine ⟨by simp [ih'.1], fun w hw => ?_⟩
+    simp only [durableVoters, List.mem_append] at hw
+    rcases hw with hw | hw
+    · split at hw
+      · rename_i hc
+        simp only [List.mem_singleton] at hw
+        subst hw
+        have h0 : HoldsM ((s.setStore w st1).storeOf w) p.m := by
+          rw [storeOf_setStore]
+          simp only [hex w List.mem_cons_self, and_self, if_true]
+          exact hvo hc
+        exact holdsM_mono (fr.2 w) h0
+      · cases hw
+    · exact ih'.2 w hw
+
+theorem votersUpTo_mem (n v : Nat) : v ∈ votersUpTo n ↔ 1 ≤ v ∧ v ≤ n := by
+  induction n with
+  | zero => simp [votersUpTo]; omega
+  | succ k ih => simp only [votersUpTo, List.mem_append, ih, List.mem_singleton]; omega
+
+theorem votersUpTo_nodup (n : Nat) : (votersUpTo n).Nodup := by
+  induction n with
+  | zero => simp [votersUpTo]
+  | succ k ih =>
+    simp only [votersUpTo]
+    rw [List.nodup_append]
+    refine ⟨ih, by simp, ?_⟩
+    intro a ha b hb
+    simp only [List.mem_singleton] at hb
+    have := (votersUpTo_mem k a).mp ha
+    omega
+
+theorem roundOrder_nodup (n ln : Nat) : (roundOrder n ln).Nodup := by
+  obtain ⟨fs, hro, hfs⟩ := roundOrder_tail n ln
+  unfold roundOrder at hro ⊢
+  simp only [List.cons.injEq, true_and] at hro
+  rw [List.nodup_cons]
+  refine ⟨by rw [hro]; exact hfs, ?_⟩
+  have hf : (List.filter (fun x => decide (x ≠ ln)) (votersUpTo n)).Nodup := (votersUpTo_nodup n).filter _
+  have hp : (List.drop (preferredFollowerIndex (List.filter (fun x => decide (x ≠ ln)) (votersUpTo n)).length)
+      (List.filter (fun x => decide (x ≠ ln)) (votersUpTo n)) ++
+      List.take (preferredFollowerIndex (List.filter (fun x => decide (x ≠ ln)) (votersUpTo n)).length)
+      (List.filter (fun x => decide (x ≠ ln)) (votersUpTo n))).Perm (List.filter (fun x => decide (x ≠ ln)) (votersUpTo n)) := by
+    refine List.perm_append_comm.trans ?_
+    rw [List.take_append_drop]
+  exact hp.nodup_iff.mpr hf
+
+theorem roundOrder_subset (n ln : Nat) (hl : 1 ≤ ln ∧ ln ≤ n) : ∀ v ∈ roundOrder n ln, 1 ≤ v ∧ v ≤ n := by
+  intro v hv
+  unfold roundOrder at hv
+  simp only [List.mem_cons, List.mem_append] at hv
+  rcases hv with rfl | hv | hv
+  · exact hl
+  · exact (votersUpTo_mem n v).mp (List.mem_filter.mp (List.mem_of_mem_drop hv)).1
+  · exact (votersUpTo_mem n v).mp (List.mem_filter.mp (List.mem_of_mem_take hv)).1
+
+/-- **c01_receipt_has_q_holders** — Sys level: when a durability round succeeds (which is the only way
+    `Commit` / the barrier acknowledge), there is a duplicate-free list of at least `q` DISTINCT voters,
+    the leader among them, each of whose logs holds the proposal afterwards. -/
+theorem c01_receipt_has_q_holders (s : Sys) (i q : Nat) (acks : List Ack) (p : Proposal)
+    (hsz : s.nodes.length = s.n) (hi : 1 ≤ i ∧ i ≤ s.n) (h : (runRound s i q acks p).2.1 = true) :
+    ∃ hs : List Nat, hs.Nodup ∧ q ≤ hs.length ∧ i ∈ hs ∧ (∀ v ∈ hs, 1 ≤ v ∧ v ≤ s.n) ∧
+      ∀ v ∈ hs, HoldsM ((runRound s i q acks p).1.storeOf v) p.m := by
+  have hex : ∀ v ∈ roundOrder s.n i, (s.node? v).isSome := by
+    intro v hv
+    have := roundOrder_subset s.n i hi v hv
+    unfold Sys.node?
+    have h0 : v ≠ 0 := by omega
+    simp only [h0, if_false]
+    rw [List.getElem?_eq_getElem (by omega)]; rfl
+  unfold runRound at h ⊢
+  have ha := applyVotes_holders i acks p (roundOrder s.n i) s hex
+  generalize har : applyVotes s i acks p (roundOrder s.n i) = ar at ha h ⊢
+  obtain ⟨s', comps⟩ := ar
+  simp only at ha h ⊢
+  have hq := c01_receipt_needs_quorum q comps h
+  refine ⟨durableVoters (roundOrder s.n i) comps, ?_, ?_, ?_, ?_, ha.2⟩
+  · exact (roundOrder_nodup s.n i).sublist (durableVoters_sublist _ _)
+  · rw [durableVoters_length _ _ ha.1.symm]; exact hq.1
+  · -- the local completion is the head of the round order
+    obtain ⟨fs, hro, _⟩ := roundOrder_tail s.n i
+    rw [hro] at har ⊢
+    simp only [applyVotes] at har
+    generalize voteOn (s.storeOf i) (ackOf s acks i) (i == i) p = vo at har
+    obtain ⟨st1, c1⟩ := vo
+    generalize hrest : applyVotes (s.setStore i st1) i acks p fs = rest at har
+    obtain ⟨s2, cs2⟩ := rest
+    simp only [Prod.mk.injEq] at har
+    obtain ⟨_, hc⟩ := har
+    subst hc
+    have hothers := (applyVotes_others i acks p fs (s.setStore i st1) (by
+      obtain ⟨fs', hro', hfs'⟩ := roundOrder_tail s.n i
+      rw [hro] at hro'; simp only [List.cons.injEq, true_and] at hro'; rw [hro']; exact hfs')).2
+    rw [hrest] at hothers
+    simp only at hothers
+    have hmem := hq.2
+    simp only [List.mem_cons, beq_self_eq_true, Prod.mk.injEq, true_and] at hmem
+    rcases hmem with hmem | hmem
+    · simp [durableVoters, hmem.symm]
+    · have := hothers _ hmem; simp at this
+  · intro v hv
+    exact roundOrder_subset s.n i hi v ((durableVoters_sublist _ _).subset hv)
+
+/-- non-vacuity: the first commit of the §8.1 history — quorum {1,2}, voter 3 unreachable -/
+example : (runRound (step Sys.default (.install 1 ⟨⟨1, 1, 1⟩, 2, false⟩ [.all, .all, .all] [.D, .D, .D])).1 1 2
+    [.D, .D, .X] ⟨⟨⟨1, 1, 1⟩, .biz 1, 0, 1, 0, 0, .zero, Dig.mk ⟨1, 1, 1⟩ 1 0 0 (.biz 1) .zero 0⟩, [0], 0⟩).2.1 = true := by
+  decide
+
+end WK.C01
+
+/-! ## only the installer's own Replace can remove entries -/
+namespace WK.C01
+open WK WK.Repl
+
+/-- every voter other than `i` only ever gains proposals -/
+def ExceptRel (i : Nat) (s s' : Sys) : Prop := ∀ v, v ≠ i → AppendOnly (s.storeOf v) (s'.storeOf v)
+
+theorem ExceptRel.refl (i : Nat) (s : Sys) : ExceptRel i s s := fun _ _ p hp => hp
+theorem ExceptRel.trans {i : Nat} {a b c : Sys} (h1 : ExceptRel i a b) (h2 : ExceptRel i b c) : ExceptRel i a c :=
+  fun v hv p hp => h2 v hv p (h1 v hv p hp)
+theorem ExceptRel.ofAll {i : Nat} {s s' : Sys} (h : StoresRel AppendOnly s s') : ExceptRel i s s' := fun v _ => h v
+theorem ExceptRel.setLocal (i : Nat) (s : Sys) (st : Store) : ExceptRel i s (s.setStore i st) := by
+  intro v hv p hp
+  rw [storeOf_setStore]; simp [hv]; exact hp
+theorem ExceptRel.setChan {i j : Nat} {s : Sys} {nd : NodeSt} (h : s.node? j = some nd) (c : Option QChan) :
+    ExceptRel i s (s.setNode j { nd with chan := c }) := by
+  intro v _ p hp; rw [storeOf_setChan h]; exact hp
+
+theorem repairPages_except (ps : List PSpec) (ln : Nat) (sel : Selection) (keep : Nat) :
+    ∀ (fuel : Nat) (s : Sys) (frm : Nat) (prev : Ident) (cur : RState) (fp : Bool),
+      ExceptRel ln s (repairPages s ps ln sel keep fuel frm prev cur fp).1 := by
+  intro fuel
+  induction fuel with
+  | zero => intro s frm prev cur fp; exact ExceptRel.refl _ _
+  | succ fuel ih =>
+    intro s frm prev cur fp
+    unfold repairPages
+    by_cases h1 : frm > sel.index
+    · simp only [h1, if_true]; exact ExceptRel.refl _ _
+    · simp only [h1, if_false]
+      cases hf : fetchFromSupporters s ps ln frm sel.index prev sel.supporters none with
+      | error e => exact ExceptRel.refl _ _
+      | ok props =>
+        simp only
+        cases hl : lastOf props with
+        | none => exact ExceptRel.refl _ _
+        | some lp =>
+          simp only
+          split
+          · exact ExceptRel.refl _ _
+          · cases hrep : (s.storeOf ln).replace cur (if fp = true then keep else cur.leo) props lp.m.last with
+            | error e => exact ExceptRel.refl _ _
+            | ok st =>
+              simp only
+              have hso := ExceptRel.setLocal ln s st
+              cases hld : st.load with
+              | error e => exact hso
+              | ok loaded =>
+                simp only
+                split
+                · exact hso
+                · exact hso.trans (ih (s.setStore ln st) (lp.m.last + 1) (lastIdent lp.entries) loaded false)
+
+theorem repairPrefix_except (s : Sys) (ps : List PSpec) (ln : Nat) (sel : Selection) :
+    ExceptRel ln s (repairPrefix s ps ln sel).1 := by
+  unfold repairPrefix
+  cases hl : (s.storeOf ln).load with
+  | error e => exact ExceptRel.refl _ _
+  | ok loc =>
+    simp only
+    split
+    · exact ExceptRel.refl _ _
+    · split
+      · exact ExceptRel.refl _ _
+      · rename_i previous hprev
+        split
+        · exact ExceptRel.refl _ _
+        · have hp := repairPages_except ps ln sel loc.committed (sel.index + 2) s (loc.committed + 1) previous loc true
+          generalize repairPages s ps ln sel loc.committed (sel.index + 2) (loc.committed + 1) previous loc true = rp at hp
+          obtain ⟨s1, r1⟩ := rp
+          simp only at hp
+          cases r1 with
+          | error e => exact hp
+          | ok fc =>
+            obtain ⟨frm, current⟩ := fc
+            simp only
+            by_cases hz : frm = 1 ∧ sel.index = 0
+            · simp only [hz, and_self, if_true]
+              cases hrep : (s1.storeOf ln).replace current 0 [] 0 with
+              | error e => exact hp
+              | ok st =>
+                simp only
+                have := hp.trans (ExceptRel.setLocal ln s1 st)
+                split <;> exact this
+            · simp only [hz, if_false]
+              split <;> exact hp
+
+theorem writeBarrier_appendOnly (s : Sys) (ln : Nat) (a : Authority) (rec : RState) (acks : List Ack) :
+    StoresRel AppendOnly s (writeBarrier s ln a rec acks).1 := by
+  have triv : StoresRel AppendOnly s s := fun _ _ hp => hp
+  unfold writeBarrier
+  split
+  · exact triv
+  · split
+    · exact triv
+    · dsimp only
+      split
+      · exact triv
+      · rename_i m es hseal
+        have := (runRound_frameS appendOnly_relS s ln a.q acks ⟨m, [0], rec.leo⟩).2
+        generalize runRound s ln a.q acks ⟨m, [0], rec.leo⟩ = rr at this
+        obtain ⟨s', ok, out⟩ := rr
+        simp only at this ⊢
+        split <;> exact this
+
+theorem installRecover_except (s : Sys) (i : Nat) (ch : QChan) (a : Authority) (ps : List PSpec) (acks : List Ack) :
+    ExceptRel i s (installRecover s i ch a ps acks).1 := by
+  unfold installRecover
+  split
+  · exact ExceptRel.refl _ _
+  · cases hrec : recoverPrefix s a.q ps with
+    | error e => exact ExceptRel.refl _ _
+    | ok sel =>
+      simp only
+      have f1 := repairPrefix_except s ps i sel
+      generalize repairPrefix s ps i sel = rp at f1 ⊢
+      obtain ⟨s1, r1⟩ := rp
+      cases r1 with
+      | error e => exact f1
+      | ok recovered =>
+        simp only
+        have hfin : ∀ fin : Sys × Except Err RState, ExceptRel i fin.1 (installFinish i ch a fin).1 := by
+          intro fin
+          obtain ⟨s2, r2⟩ := fin
+          cases r2 with
+          | error e => exact ExceptRel.refl _ _
+          | ok frontier =>
+            simp only [installFinish]
+            cases hn2 : s2.node? i with
+            | none => exact ExceptRel.refl _ _
+            | some nd' => exact ExceptRel.setChan hn2 _
+        refine f1.trans (ExceptRel.trans ?_ (hfin _))
+        split
+        · exact ExceptRel.ofAll (writeBarrier_appendOnly s1 i a recovered acks)
+        · exact ExceptRel.refl _ _
+
+theorem install_except (s : Sys) (i : Nat) (a : Authority) (ps : List PSpec) (acks : List Ack) :
+    ExceptRel i s (install s i a ps acks).1 := by
+  unfold install
+  cases hn : s.node? i with
+  | none => exact ExceptRel.refl _ _
+  | some nd =>
+    simp only
+    split
+    · exact ExceptRel.refl _ _
+    · split
+      · exact ExceptRel.refl _ _
+      · exact (ExceptRel.setChan hn _).trans (installRecover_except _ i _ a ps acks)
+
+/-- **c01_loss_only_at_installer** — an acknowledged (or any stored) entry can leave a voter's log ONLY
+    while that very voter runs `Install` (its own recovery `Replace`): every other op, and every
+    install running on ANOTHER node (probes, donor fetches, the barrier round), only ever appends to
+    it.  Hence "≥ Q voters hold e" can only be reduced by the installing node itself. -/
+theorem c01_loss_only_at_installer (s : Sys) (op : Op) (v : Nat)
+    (h : ∀ i a ps acks, op = .install i a ps acks → i ≠ v) (hc : ∀ n q c fr, op ≠ .cfg n q c fr) :
+    ∀ p ∈ (s.storeOf v).props, p ∈ ((step s op).1.storeOf v).props := by
+  cases op with
+  | cfg n q c fr => exact absurd rfl (hc n q c fr)
+  | install i a ps acks =>
+    have hiv : v ≠ i := fun e => h i a ps acks rfl e.symm
+    obtain ⟨n, q, cap, started, nodes, owners⟩ := s
+    simp only [step]
+    have keep : ∀ (st : Bool) (ow : List (AuthId × Nat)), ∀ p ∈ (Sys.storeOf ⟨n, q, cap, started, nodes, owners⟩ v).props,
+        p ∈ (Sys.storeOf ⟨n, q, cap, st, nodes, ow⟩ v).props := fun _ _ p hp => hp
+    cases hn : Sys.node? ⟨n, q, cap, true, nodes, owners⟩ i with
+    | none => exact keep _ _
+    | some nd =>
+      simp only
+      split
+      · exact keep _ _
+      · split
+        · split
+          · exact keep _ _
+          · split
+            · exact keep _ _
+            · exact fun p hp => install_except ⟨n, q, cap, true, nodes, owners⟩ i a ps acks v hiv p hp
+        · split
+          · exact keep _ _
+          · exact fun p hp => install_except ⟨n, q, cap, true, nodes, (a.id, i) :: owners⟩ i a ps acks v hiv p hp
+  | crash i => exact c01_no_loss_without_install s _ rfl v
+  | restart i => exact c01_no_loss_without_install s _ rfl v
+  | repair l f nf => exact c01_no_loss_without_install s _ rfl v
+  | commit i e c k p acks => exact c01_no_loss_without_install s _ rfl v
+
+/-- non-vacuity: in the §8.1 witness the install on node 2 leaves voter 1's copy untouched -/
+example : ((witness.foldl (fun s o => (step s o).1) Sys.default).storeOf 1).leo = 1 := by decide
+
+end WK.C01
